@@ -118,3 +118,15 @@ func VerifW1SaveImmediately(a *Agent) bool {
 	defer s.mu.Unlock()
 	return s.config.SaveSecondsImmediately
 }
+
+// VerifW1Clock reads the agent's own clock: the second it currently receives into and the oldest
+// second it has not yet handed to the preprocessor (events stamped older than that join that second).
+func VerifW1Clock(a *Agent) (currentTime uint32, sendTime uint32) {
+	if len(a.Shards) != 1 {
+		panic("w1 harness: the world is built for agents with exactly one shard")
+	}
+	s := a.Shards[0]
+	s.mu.Lock()
+	defer s.mu.Unlock()
+	return s.CurrentTime, s.SendTime
+}
